@@ -73,8 +73,11 @@ def _case(draw, tier):
         v = draw(st.integers(0, len(c["vars"]) - 1))
         # (... and, in the second spelling, also EVALUATES its nested query - which uses a Predicate subclass and HasType -
         # while that block is still open)
-        c["cond"] = ["and", "nary", [["fpred", draw(st.sampled_from(["p_runs_subquery", "p_runs_subquery_inside"])), [["var", v], ["const", draw(st.sampled_from([0, 1, 2]))]]],
-                                     c["cond"], ["cpred", "IsBig", [["var", v]]]]]
+        which = draw(st.sampled_from(["p_runs_subquery", "p_runs_subquery_inside"]))
+        c["cond"] = ["and", "nary", [["fpred", which, [["var", v], ["const", draw(st.sampled_from([0, 1, 2]))]]], c["cond"]]
+                     # (the nested query of the second spelling tests IsBig itself: no outer IsBig beside it, which would
+                     # hide a nested predicate that did not run)
+                     + ([["cpred", "IsBig", [["var", v]]]] if which == "p_runs_subquery" else [])]
     c["quant"] = draw(st.sampled_from(["an", "the", "the", "infer", "infer"]))
     c["steer"] = draw(st.sampled_from(["keep", "one", "one", "zero"])) if c["quant"] == "the" else "keep"
     c["pick"] = draw(st.integers(0, 20))
